@@ -32,7 +32,7 @@ def members(path):
     with _open(path) as z:
         for n in z.namelist():
             data = z.read(n)
-            if n.lower().endswith("index.zip"):
+            if n.lower().rsplit("/", 1)[-1] == "index.zip":   # the inner archive itself, not a data file called photo-index.zip
                 with _open(io.BytesIO(data)) as z2:
                     for n2 in z2.namelist():
                         out.append((n2, z2.read(n2)))
